@@ -387,6 +387,8 @@ fn gen_subject(rng: &mut Rng, i: u64, small: bool) -> Result<Subject, String> {
     }
     let p = match i % 4 { 0 => (1, 4), 1 => (1, 2), _ => (3, 4) };
     dense::densify(&mut m, rng, &cfg, if small { (1, 3) } else { p });
+    // every fifth subject (never the module one) with names / descriptors / strings redrawn from cf::hostile
+    if i % 5 == 2 && m.module.is_none() { let lm = if rng.chance(1, 25) { 5000 } else { 60 }; cf::hostile::hostilise(rng, &mut m, (1, 3), lm); }
     let layout = if i % 3 == 0 { emit::Layout::canonical() } else { let mut l = emit::Layout::random(rng.next_u64()); if rng.chance(1, 6) { l.pool_filler = 250 + rng.below(20); } l };
     let bytes = emit::emit(&m, &layout).map_err(|e| format!("emit: {}", template(&e)))?;
     // harness self-check: the independent parser reads the model back and agrees on the length
